@@ -432,6 +432,8 @@ def evaluate(R, data, io_fault=None, entry='path', clock=False, path=None):
         except UnicodeDecodeError:
             entry = 'path'
     res['entry'] = entry
+    if entry == 'main' and getattr(R, 'Droop', None) is None:
+        entry = res['entry'] = 'path'
     sim_path = '' if io_fault == 'PATH-EMPTY' else (path or SIM_PATH)   # ElectionProfile(path='') names no file at all
     p = None
     exc = None
@@ -449,6 +451,8 @@ def evaluate(R, data, io_fault=None, entry='path', clock=False, path=None):
                              else R.droop.profile.ElectionProfile(data=text))
                     finally:
                         res['steps'] = pc.n
+            elif entry == 'main':
+                p = _read_through_driver(R, sim_path)
             else:
                 p = (R.droop.profile.ElectionProfile(path=sim_path) if entry == 'path'
                      else R.droop.profile.ElectionProfile(data=text))
@@ -586,6 +590,34 @@ def _constructs_alone(R, data, entry, path, rule):
     return out[-1] if out else '?'
 
 
+class _ProfileRead(BaseException):
+    "raised by the stand-in Election class: Droop.main has read the profile"
+
+    def __init__(self, profile):
+        super().__init__('profile read')
+        self.profile = profile
+
+
+def _read_through_driver(R, sim_path):
+    """the package's own driver, Droop.main, reads the file; it is cut off where it would build the Election (what a
+    count does with the profile is not C16's subject).  Whatever main does with a profile error -- it lets it through
+    today -- must still come out as the package's profile error."""
+    D = R.Droop
+    real = D.Election
+
+    class _Cut:       # pylint: disable=too-few-public-methods
+        def __init__(self, profile, options=None):      # pylint: disable=unused-argument
+            raise _ProfileRead(profile)
+    D.Election = _Cut
+    try:
+        D.main({'path': sim_path, 'rule': 'wigm'})
+    except _ProfileRead as got:
+        return got.profile
+    finally:
+        D.Election = real
+    raise RuntimeError('Droop.main returned without building an Election')
+
+
 def signature(v):
     "known-findings signature"
     return dict(clause=v['cls'], exc=v.get('exc'), frame=v.get('frame'), line_text=v.get('line_text'))
@@ -649,7 +681,7 @@ def _viol_entry(v, base_name, base, faults, aux, io, entry, data, path=None):
     d = dict(v)
     d.update(base_name=base_name, base_b64=base64.b64encode(base).decode('ascii'), faults=faults,
              aux_b64=base64.b64encode(aux).decode('ascii') if aux else None, io_fault=io, entry=entry,
-             nbytes=len(data), sim_path=path)
+             nbytes=len(data), sim_path=path, low_digits=bool(v.get('low_digits')))
     return d
 
 
@@ -718,7 +750,23 @@ def _work_sequences(R, seed, bases, first, count, realfs, scratch, acc, nb):
             continue
         clock = rnd.random() < 0.03
         path = rnd.choice(SIM_PATHS) if rnd.random() < 0.1 else None
-        res = evaluate(R, data, io, entry, clock=clock, path=path)
+        if rnd.random() < 0.08:
+            entry = 'main'              # read by the package's own driver
+        low_digits = rnd.random() < 0.06 and hasattr(sys, 'set_int_max_str_digits')
+        if low_digits:
+            # environment fault: the interpreter runs with the lowest int<->str digit limit it accepts
+            # (PYTHONINTMAXSTRDIGITS=640); numbers of 641-4300 digits now fail to convert
+            old_limit = sys.get_int_max_str_digits()
+            sys.set_int_max_str_digits(640)
+            acc['probes']['low_int_digit_limit'] = acc['probes'].get('low_int_digit_limit', 0) + 1
+        try:
+            res = evaluate(R, data, io, entry, clock=clock, path=path)
+        finally:
+            if low_digits:
+                sys.set_int_max_str_digits(old_limit)
+        if low_digits and res['viol']:
+            for v_ in res['viol']:
+                v_['low_digits'] = True
         if path:
             acc['probes']['odd_path_string'] = acc['probes'].get('odd_path_string', 0) + 1
         if res['outcome'] == 'hang':
@@ -911,7 +959,7 @@ def replay_object(R, seed, v, reduced=None):
     "replay file content"
     return dict(property='C16', verif_seed=seed, engine='disk', base_name=v['base_name'], base_b64=v['base_b64'],
                 faults=v['faults'], aux_b64=v.get('aux_b64'), io_fault=v.get('io_fault'), entry=v.get('entry', 'path'),
-                sim_path=v.get('sim_path'), reduced_b64=reduced,
+                sim_path=v.get('sim_path'), low_digits=v.get('low_digits', False), reduced_b64=reduced,
                 violation={k: v.get(k) for k in ('cls', 'exc', 'frame', 'line_text', 'msg')}, tree=R.tree)
 
 
@@ -926,6 +974,8 @@ def run_replay(R, obj):
     "re-execute a replay file: violations of the recorded (base + faults) form and of the reduced form"
     signal.signal(signal.SIGALRM, _alarm)
     data = stored_bytes(obj)
+    if obj.get('low_digits') and hasattr(sys, 'set_int_max_str_digits'):
+        sys.set_int_max_str_digits(640)         # the replay process lives only for this file
     res = evaluate(R, data, obj.get('io_fault'), obj.get('entry', 'path'), path=obj.get('sim_path'))
     out = list(res['viol'])
     if not out and (obj.get('violation') or {}).get('cls') == 'hang':
@@ -950,6 +1000,9 @@ def minimise(R, seed, v):
     aux = base64.b64decode(v['aux_b64']) if v.get('aux_b64') else b''
     io = v.get('io_fault')
     entry = v.get('entry', 'path')
+
+    if v.get('low_digits') and hasattr(sys, 'set_int_max_str_digits'):
+        sys.set_int_max_str_digits(640)         # minimisation runs in its own child
 
     def shows(data, io_):
         res = evaluate(R, data, io_, entry, path=v.get('sim_path'))
